@@ -773,7 +773,7 @@ func main() {
 		}
 	}
 	sort.Strings(params)
-	for i, r := range harness.ExploreBatch("lookup", params, harness.Pick(c, 1, 2), harness.Pick(c, 20*time.Second, 10*time.Minute), true) {
+	for i, r := range harness.ExploreBatch("lookup", params, harness.Pick(c, 1, 2), harness.Pick(c, 20*time.Second, 2*time.Minute), true) {
 		if i%15 == 0 {
 			c.Sample(map[string]any{"script": r.Param, "executions": r.Stats.Execs, "observations": len(r.Stats.Observations)})
 		}
